@@ -28,6 +28,7 @@ var verifTrace struct {
 	file   *os.File
 	ids    map[*StringScanner]int
 	events int
+	inside map[*StringScanner]int // calls in progress that are traced as a whole (their inner calls are not)
 	max    int // VERIF_SCAN_TRACE_MAX: once that many lines are written no further instance is admitted (0 = no limit)
 }
 
@@ -37,17 +38,40 @@ func init() {
 		if err == nil {
 			verifTrace.file = f
 			verifTrace.ids = map[*StringScanner]int{}
+			verifTrace.inside = map[*StringScanner]int{}
 			fmt.Sscan(os.Getenv("VERIF_SCAN_TRACE_MAX"), &verifTrace.max)
 		}
 	}
 }
 
-func (c *StringScanner) verifEvent(op string) {
+// verifEnter starts a call that is traced as a whole (UnreadMany, however it is carried out): the calls it makes
+// on the same scanner are not logged; the function it returns logs the call with its argument at its return.
+func (c *StringScanner) verifEnter(op string, n int) func() {
+	if verifTrace.file == nil {
+		return func() {}
+	}
+	verifTrace.mu.Lock()
+	verifTrace.inside[c]++
+	verifTrace.mu.Unlock()
+	return func() {
+		verifTrace.mu.Lock()
+		verifTrace.inside[c]--
+		verifTrace.mu.Unlock()
+		c.verifLog(op, n, true)
+	}
+}
+
+func (c *StringScanner) verifEvent(op string) { c.verifLog(op, 0, false) }
+
+func (c *StringScanner) verifLog(op string, n int, withN bool) {
 	if verifTrace.file == nil {
 		return
 	}
 	verifTrace.mu.Lock()
 	defer verifTrace.mu.Unlock()
+	if verifTrace.inside[c] > 0 {
+		return
+	}
 	id, ok := verifTrace.ids[c]
 	if !ok {
 		if op != "new" || (verifTrace.max > 0 && verifTrace.events >= verifTrace.max) {
@@ -58,6 +82,9 @@ func (c *StringScanner) verifEvent(op string) {
 	}
 	var b strings.Builder
 	fmt.Fprintf(&b, `{"inst":%d,"op":%q`, id, op)
+	if withN {
+		fmt.Fprintf(&b, `,"n":%d`, n)
+	}
 	if op == "new" {
 		b.WriteString(`,"content":[`)
 		for i, r := range c.content {
